@@ -7,7 +7,10 @@ States == SeqsUpTo(MaxLen)
 AllOps == DetOps \cup {[o |-> "Set", r |-> r, t |-> t] : r \in Tags, t \in Texts}
 Cases == {[pre |-> s, op |-> op] : s \in States, op \in AllOps}
 
-Distinct == {s \in States : TagsDistinct(s)}
+\* equality is also exercised on entries with an empty text
+EqEntries == [r : Tags, t : Texts \cup {""}]
+EqStates == UNION {[1..k -> EqEntries] : k \in 0..2} \cup {s \in States : Len(s) = 3}
+Distinct == {s \in EqStates : TagsDistinct(s)}
 EqCases == {[a |-> a, b |-> b] : a \in Distinct, b \in Distinct}
 
 GenInit == e = <<>> /\ res = [k |-> "init"]
